@@ -32,3 +32,10 @@ def run(ctx):
     ctx.tlc("MC_Wire", "MC_Wire_tagged_" + t, replay="wire")
     n = 10000 if ctx.quick else 300000
     ctx.record_and_validate("decoder", "Trace_Wire", ["n=%d" % n], label="Trace_Decoder")
+    # the generator-reply types are private to the binary: every malformed reply of the catalogue (out-of-range bool,
+    # undecodable strings field by field, bad level, absurd size, truncations - also a valid reply cut at every byte)
+    # reaches them through a fake generator, and must become a diagnostic naming the generator (Trace_Driver)
+    ctx.tlc("MC_DriverGen", "MC_DriverGen_replies", replay="driver", coverage=False, case_timeout_ms=60000)
+    ctx.tlc("MC_DriverGen", "MC_DriverGen_trunc", replay="driver", coverage=False, case_timeout_ms=60000)
+    trace = ctx.collect_events("driver")
+    ctx.validate_events("Trace_Driver", trace)
